@@ -28,11 +28,11 @@ def collect(ctx, res, want="C16"):
             out.append((sig, path, "%s on a terminal %d columns wide: no frame was handed to the terminal (%s)" % (e["scenario"], e["w"], (e.get("what") or "")[:160])))
     for b in bad:
         e = frames[b["line"] - 1]
-        if "lines" not in b["why"] and "centred" not in b["why"] and want == "C16":
+        if "lines" not in b["why"] and "centred" not in b["why"] and "status" not in b["why"] and want == "C16":
             continue
         rows = 1 + sum(1 for t in e["toks"] if t["t"] == "nl")
         sig = {"monitor": "T_Term", "why": ",".join(b["why"]), "kind": "frame", "lines_minus_h": rows - e["h"]}
         path = vlib.save_replay(ctx.pid, "frame-s%d-%d" % (e["sid"], e["frame"]), {k: e[k] for k in ("w", "h", "sid", "frame")})
-        out.append((sig, path, "frame %d of ui session %d has %d lines on a terminal of height %d, highlighted item at row %s (%s rows) (%s)" % (
-            e["frame"], e["sid"], rows, e["h"], e.get("cursor_top"), e.get("cursor_rows"), b["why"])))
+        out.append((sig, path, "frame %d of ui session %d%s has %d lines on a terminal of height %d, highlighted item at row %s (%s rows), last line %r where the status line is %r (%s)" % (
+            e["frame"], e["sid"], " (" + e["src"] + ")" if e.get("src") else "", rows, e["h"], e.get("cursor_top"), e.get("cursor_rows"), e.get("lastline"), e.get("status"), b["why"])))
     return out
